@@ -153,6 +153,16 @@ def fixtures(tmp):
     bad.append("not-a-token")
     bad.append(good[0].rsplit(".", 1)[0] + ".")
     fx["good"], fx["bad"] = good, bad
+    # correctly signed tokens that fail on their claims: expired, not valid yet, both
+    fx["bad_claims"] = {}
+    for cause, claims in (("expired", ["i:exp=1000"]), ("not-yet-valid", ["i:nbf=4000000000"]), ("expired-and-not-yet-valid", ["i:exp=1000", "i:nbf=4000000000"])):
+        args = [tool("jwt-generate"), "-q", "-k", fx["oct_alg"]]
+        for c in claims:
+            args += ["-c", c]
+        rc, out, err = run(args)
+        if rc != 0:
+            raise SystemExit("cli: jwt-generate failed in fixtures: %r" % err)
+        fx["bad_claims"][cause] = out.decode().strip()
     return fx
 
 
@@ -270,6 +280,49 @@ def part_exit_status(fx):
                     C.violation("exit-status|long-token|%s|%s" % ("zero-despite-failures" if rc == 0 else "nonzero-despite-all-good", "stdin" if via else "argv"),
                                 "%s via %s: exit status %d" % (shape, "stdin" if via else "argv", rc))
                 C.nontrivial()
+    # tokens that fail for different reasons (signature, shape, expiry, not-before): each failure counts as a failure whatever its cause, alone,
+    # in runs of every length the status arithmetic could trip over, and mixed with a run of tokens failing for another reason
+    causes = dict(fx["bad_claims"])
+    causes["bad-signature"] = bad[0]
+    causes["not-a-token"] = "not-a-token"
+    runs = list(range(1, 10)) + [15, 16, 17, 31, 32, 33, 63, 64, 65, 127, 128, 129, 255, 256, 257, 512]
+    for cause in sorted(causes):
+        for via in (False, True):
+            if not C.case("jwt-verify with runs of 1..512 tokens all failing as %s (%s)" % (cause, "stdin" if via else "arguments")):
+                continue
+            for n in runs:
+                rc = verify_list(fx, [causes[cause]] * n, via)
+                C.obs((rc == 0, n < 10))
+                if rc == 0:
+                    C.violation("exit-status|zero-despite-failures|cause-%s" % cause, "%d token(s) failing as %s via %s: exit status 0" % (n, cause, "stdin" if via else "argv"))
+            C.nontrivial()
+    maxb = 64 if C.tier == "thorough" else 33
+    for c1 in sorted(fx["bad_claims"]):
+        for c2 in ("bad-signature", "not-a-token") + tuple(k for k in sorted(fx["bad_claims"]) if k > c1):
+            for via in (False, True):
+                if not C.case("jwt-verify with 1..4 tokens failing as %s followed by 0..%d failing as %s (%s)" % (c1, maxb, c2, "stdin" if via else "arguments")):
+                    continue
+                for a in range(1, 5):
+                    for b in range(0, maxb + 1):
+                        toks = [causes[c1]] * a + [causes[c2]] * b
+                        if b % 2:
+                            toks.reverse()
+                        rc = verify_list(fx, toks, via)
+                        C.obs((rc == 0, a, b > 0))
+                        if rc == 0:
+                            C.violation("exit-status|zero-despite-failures|mixed-causes", "%d token(s) failing as %s and %d failing as %s via %s: exit status 0" %
+                                        (a, c1, b, c2, "stdin" if via else "argv"))
+                C.nontrivial()
+    # a good token between them changes nothing
+    if C.case("jwt-verify with good tokens around one token failing on its claims"):
+        for cause in sorted(fx["bad_claims"]):
+            for via in (False, True):
+                for toks in ([good[0], causes[cause]], [causes[cause], good[0]], [good[0], causes[cause], good[1]]):
+                    rc = verify_list(fx, toks, via)
+                    C.obs(rc == 0)
+                    if rc == 0:
+                        C.violation("exit-status|zero-despite-failures|cause-%s" % cause, "good tokens and one failing as %s via %s: exit status 0" % (cause, "stdin" if via else "argv"))
+        C.nontrivial()
     # long lists
     lengths = [254, 255, 256, 257, 258, 511, 512, 513, 1024] if C.tier == "thorough" else [255, 256, 257, 512]
     for n in lengths:
